@@ -346,3 +346,58 @@ Proof.
   intros s Hs. rewrite check_trace_fast_correct.
   now rewrite (all_seqs_length _ _ _ _ Hs).
 Qed.
+
+(* ------------------------------------------ the enumeration is exhaustive *)
+Lemma all_vals_complete : forall n l, length l = n -> In l (all_vals n).
+Proof.
+  induction n; intros l H.
+  - destruct l; [simpl; auto|discriminate].
+  - destruct l as [|b l]; [discriminate|]. simpl. apply in_flat_map.
+    exists l. split; [apply IHn; simpl in H; lia|]. destruct b; simpl; auto.
+Qed.
+
+Lemma all_vals_length : forall n l, In l (all_vals n) -> length l = n.
+Proof.
+  induction n; simpl; intros l H.
+  - destruct H as [<-|[]]. reflexivity.
+  - apply in_flat_map in H. destruct H as [l' [Hl H]].
+    destruct H as [<-|[<-|[]]]; simpl; f_equal; auto.
+Qed.
+
+Lemma all_seqs_members : forall (A : Type) (vals : list A) n s,
+  In s (all_seqs vals n) -> forall x, In x s -> In x vals.
+Proof.
+  induction n; simpl; intros s H x Hx.
+  - destruct H as [<-|[]]. destruct Hx.
+  - apply in_flat_map in H. destruct H as [s' [Hs' H]].
+    apply in_map_iff in H. destruct H as [a [<- Ha]].
+    destruct Hx as [<-|Hx]; eauto.
+Qed.
+
+Lemma all_seqs_complete : forall (A : Type) (vals : list A) n s,
+  length s = n -> (forall x, In x s -> In x vals) -> In s (all_seqs vals n).
+Proof.
+  induction n; intros s H Hin.
+  - destruct s; [simpl; auto|discriminate].
+  - destruct s as [|a s]; [discriminate|]. simpl. apply in_flat_map.
+    exists s. split.
+    + apply IHn; [simpl in H; lia|]. intros x Hx. apply Hin. simpl. auto.
+    + apply (in_map (fun a0 => a0 :: s)). apply Hin. simpl. auto.
+Qed.
+
+(* check_all is true iff check_trace is true on EVERY sequence of n
+   valuations of vs *)
+Theorem check_all_exhaustive : forall fx unt f I vs n,
+  check_all fx unt f I vs n = true <->
+  forall trace, length trace = n ->
+    (forall bits, In bits trace -> length bits = length vs) ->
+    check_trace f (translate fx unt f) I vs n trace = true.
+Proof.
+  intros. unfold check_all. rewrite forallb_forall. split.
+  - intros H trace Hl Hb. apply H. apply all_seqs_complete; auto.
+    intros bits Hbits. apply all_vals_complete. auto.
+  - intros H trace Hin. apply H.
+    + eapply all_seqs_length; eauto.
+    + intros bits Hbits. apply all_vals_length.
+      eapply all_seqs_members; eauto.
+Qed.
